@@ -64,17 +64,21 @@ def _worker(arg) -> Acc:
     return acc
 
 
-def run_g(ctx: Ctx, which: str) -> None:
-    shards = []
+def g_tasks(ctx: Ctx, which: str):
+    tasks = []
     sizes = {}
     for family, stats_list in families(ctx.tier):
         total = len(dg.grammars(family))
         sizes[family] = total
-        step = 40
+        step = 10
         for lo in range(0, total, step):
-            shards.append((which, ctx.tier, family, [list(s) for s in stats_list], lo, min(lo + step, total)))
+            tasks.append((_worker, (which, ctx.tier, family, [list(s) for s in stats_list], lo, min(lo + step, total))))
     ctx.bounds["grammar_families"] = sizes
-    ctx.pmap(_worker, shards)
+    return tasks
+
+
+def run_g(ctx: Ctx, which: str) -> None:
+    ctx.pmap_tasks(g_tasks(ctx, which))
 
 
 def replay_g(acc: Acc, payload: dict, which: str) -> None:
@@ -134,8 +138,12 @@ def _worker_one_factor(arg) -> Acc:
     return acc
 
 
-def run_one_factor(ctx: Ctx) -> None:
+def one_factor_tasks(ctx: Ctx):
     gs = [g for g in dg.grammars("one") if any(len(alt) == 1 for alts in g for alt in alts)]
     ctx.bounds["one_factor_grammars"] = len(gs)
     items = [[[list(a) for a in alts] for alts in g] for g in gs]
-    ctx.pmap(_worker_one_factor, [items[i : i + 20] for i in range(0, len(items), 20)])
+    return [(_worker_one_factor, items[i : i + 20]) for i in range(0, len(items), 20)]
+
+
+def run_one_factor(ctx: Ctx) -> None:
+    ctx.pmap_tasks(one_factor_tasks(ctx))
